@@ -118,9 +118,27 @@ where
     ScVal::try_from_val(env, &val).expect("to scval")
 }
 
+thread_local! {
+    /// Ledger sequence and timestamp at which `U::new()` starts (set per universe by the report).
+    pub static GENESIS: std::cell::Cell<(u32, u64)> = std::cell::Cell::new((100, 1_000_000));
+}
+
+/// Choose where the next universes' ledgers start: mostly at an ordinary point, sometimes at the
+/// very first ledger (sequence 0, timestamp 0) or right after it.
+pub fn set_genesis_for(universe: u64) {
+    let h = universe.wrapping_mul(0x9E37_79B9_7F4A_7C15) >> 33;
+    let g = match h % 8 {
+        0 => (0, 0),
+        1 => (1, 1),
+        _ => (100, 1_000_000),
+    };
+    GENESIS.with(|c| c.set(g));
+}
+
 impl U {
     pub fn new() -> U {
-        Self::with_ledger(100, 1_000_000)
+        let (seq, t) = GENESIS.with(|c| c.get());
+        Self::with_ledger(seq, t)
     }
 
     pub fn with_ledger(seq: u32, timestamp: u64) -> U {
